@@ -27,6 +27,7 @@ func NewStateListener(next http.Handler, stateListener URLForwardingStateListene
 
 func (s *StateListener) ServeHTTP(rw http.ResponseWriter, req *http.Request) {
 	s.stateListener(req.URL, StateConnected)
+	// deferred: the reverse proxy aborts a failed body copy by panicking with http.ErrAbortHandler
+	defer func() { s.stateListener(req.URL, StateDisconnected) }()
 	s.next.ServeHTTP(rw, req)
-	s.stateListener(req.URL, StateDisconnected)
 }
